@@ -1,0 +1,165 @@
+//go:build verif
+
+// Contracts for the deductive verifier in /verif (govc) — JSON-RPC views of receipts (C14). This file contains no code:
+// with the build tag off it is not part of the package, with it on it adds nothing to the build.
+package backend
+
+//@ import common "github.com/ethereum/go-ethereum/common"
+//@ import ethtypes "github.com/ethereum/go-ethereum/core/types"
+//@ import abci "github.com/cometbft/cometbft/abci/types"
+//@ import cmtrpctypes "github.com/cometbft/cometbft/rpc/core/types"
+//@ import rpctypes "github.com/EscanBE/evermint/v12/rpc/types"
+//@ import evertypes "github.com/EscanBE/evermint/v12/types"
+//@ import evmtypes "github.com/EscanBE/evermint/v12/x/evm/types"
+//@ import big "math/big"
+
+// ---------------------------------------------------------------------------------------------
+// Vocabulary.
+// "The consensus results" of a block are the ExecTxResult list of the block-results response: the x/evm message server
+// emits one tx_receipt event per executed Ethereum transaction (C13: GetSdkEventForReceipt renders gas used, tx index,
+// the marshalled consensus receipt ...); a transaction that passed the ante handler but failed in the state transition
+// (e.g. exceeded the block gas limit) has NO receipt event and is recorded by consensus with its gas limit.
+//
+// evRc*(events): what TxReceiptFromEvent reads out of one event list — a function of the list (slice value; the events
+// of a fetched response are never written by this package).
+// ---------------------------------------------------------------------------------------------
+//@ ghost func evRcErr(b ref, o int, l int) bool
+//@ ghost func evRcHas(b ref, o int, l int) bool
+//@ ghost func evRcGasUsed(b ref, o int, l int) int
+//@ ghost func evRcCumGas(b ref, o int, l int) int
+//@ ghost func evRcStatus(b ref, o int, l int) int
+//@ ghost func evRcType(b ref, o int, l int) int
+//@ ghost func evRcTxIndex(b ref, o int, l int) int
+//@ ghost func evRcTxHash(b ref, o int, l int) common.Hash
+//@ ghost func evRcContract(b ref, o int, l int) common.Address
+//@ ghost func evRcBlockNumber(b ref, o int, l int) int
+//@ ghost func evRcNLogs(b ref, o int, l int) int
+
+// Names for the parts of the two CometBFT responses (pinned by the summaries of the two client calls below; they do not
+// constrain the responses): the bytes of the i-th transaction of the block, the event list of the i-th result.
+//@ ghost func blkTxBytes(blk ref, i int) bytes
+//@ ghost func brEvB(rs ref, i int) ref
+//@ ghost func brEvO(rs ref, i int) int
+//@ ghost func brEvL(rs ref, i int) int
+// the receipt view of the i-th result of a block-results response
+//@ ghost func rsErr(rs ref, i int) bool = evRcErr(brEvB(rs, i), brEvO(rs, i), brEvL(rs, i))
+//@ ghost func rsHas(rs ref, i int) bool = evRcHas(brEvB(rs, i), brEvO(rs, i), brEvL(rs, i))
+//@ ghost func rsGasUsed(rs ref, i int) int = evRcGasUsed(brEvB(rs, i), brEvO(rs, i), brEvL(rs, i))
+//@ ghost func rsCumGas(rs ref, i int) int = evRcCumGas(brEvB(rs, i), brEvO(rs, i), brEvL(rs, i))
+//@ ghost func rsStatus(rs ref, i int) int = evRcStatus(brEvB(rs, i), brEvO(rs, i), brEvL(rs, i))
+//@ ghost func rsType(rs ref, i int) int = evRcType(brEvB(rs, i), brEvO(rs, i), brEvL(rs, i))
+//@ ghost func rsTxIndex(rs ref, i int) int = evRcTxIndex(brEvB(rs, i), brEvO(rs, i), brEvL(rs, i))
+//@ ghost func rsTxHash(rs ref, i int) common.Hash = evRcTxHash(brEvB(rs, i), brEvO(rs, i), brEvL(rs, i))
+//@ ghost func rsContract(rs ref, i int) common.Address = evRcContract(brEvB(rs, i), brEvO(rs, i), brEvL(rs, i))
+//@ ghost func rsNLogs(rs ref, i int) int = evRcNLogs(brEvB(rs, i), brEvO(rs, i), brEvL(rs, i))
+
+// Gas that the transaction at RAW block position i contributes to the cumulative gas of a later transaction, as the
+// synthetic-receipt code counts it: only transactions that decode to exactly one MsgEthereumTx count; with a receipt
+// event: the gas used recorded there; without one (failed after the ante handler): the gas limit; an unreadable receipt
+// event contributes nothing (never produced by consensus: C13.event_renders_receipt).
+//@ ghost func prevGasAt(dec ref, blk ref, rs ref, i int) int = (txDecodes(dec, blkTxBytes(blk, i)) && singleEthBytes(blkTxBytes(blk, i))) ? (rsErr(rs, i) ? 0 : (rsHas(rs, i) ? rsGasUsed(rs, i) : decGas(ethTxOfBytes(blkTxBytes(blk, i))))) : 0
+// prevGasTo(.., n) = sum of prevGasAt over the raw positions 0 .. n-1 (definition by recursion on n)
+//@ ghost func prevGasTo(dec ref, blk ref, rs ref, n int) int
+//@ axiom[C14] prev_gas_zero: forall d ref, b ref, r ref, n int :: {prevGasTo(d, b, r, n)} n <= 0 ==> prevGasTo(d, b, r, n) == 0
+//@ axiom[C14] prev_gas_step: forall d ref, b ref, r ref, n int :: {prevGasTo(d, b, r, n + 1)} n >= 0 ==> prevGasTo(d, b, r, n + 1) == prevGasTo(d, b, r, n) + prevGasAt(d, b, r, n)
+
+// ---------------------------------------------------------------------------------------------
+// Node client / indexer calls: trusted summaries returning unconstrained results (the node is outside the check).
+// The quantified ensures only NAME parts of the returned object (definitional, satisfiable for every response).
+// ---------------------------------------------------------------------------------------------
+//@ func (b *Backend) GetTxByEthHash(hash common.Hash) (res *evertypes.TxResult, err error)
+//@   assumed
+//@   modifies nothing
+//@   ensures err == nil ==> (res != nil && fresh(res))
+//@   panics never
+
+//@ func (b *Backend) CometBFTBlockByNumber(blockNum rpctypes.BlockNumber) (res *cmtrpctypes.ResultBlock, err error)
+//@   assumed
+//@   modifies nothing
+//@   ensures err != nil ==> res == nil
+//@   ensures res != nil ==> res.Block != nil
+//@   ensures res != nil ==> (forall i int :: {blkTxBytes(res, i)} (0 <= i && i < len(res.Block.Data.Txs)) ==> blkTxBytes(res, i) == bytes(res.Block.Data.Txs[i]))
+//@   panics never
+
+//@ func (b *Backend) CometBFTBlockResultByNumber(height *int64) (res *cmtrpctypes.ResultBlockResults, err error)
+//@   assumed
+//@   modifies nothing
+//@   ensures err == nil ==> res != nil
+//@   ensures res != nil ==> (forall j int :: {brEvB(res, j)} {brEvO(res, j)} {brEvL(res, j)} (0 <= j && j < len(res.TxsResults)) ==> (res.TxsResults[j] != nil && brEvB(res, j) == base(res.TxsResults[j].Events) && brEvO(res, j) == off(res.TxsResults[j].Events) && brEvL(res, j) == len(res.TxsResults[j].Events)))
+//@   panics never
+
+//@ func (b *Backend) BaseFee(blockRes *cmtrpctypes.ResultBlockResults) (fee *big.Int, err error)
+//@   assumed
+//@   modifies nothing
+//@   ensures fee != nil ==> (fresh(fee) && bigval[fee] >= 0 && bigval[fee] < pow2(256))
+//@   panics never
+
+//@ func (b *Backend) EthMsgsFromCometBFTBlock(resBlock *cmtrpctypes.ResultBlock, blockRes *cmtrpctypes.ResultBlockResults) (msgs []*evmtypes.MsgEthereumTx)
+//@   assumed
+//@   modifies txSrc
+//@   ensures forall i int :: (0 <= i && i < len(msgs)) ==> msgs[i] != nil
+//@   panics any
+
+// ---------------------------------------------------------------------------------------------
+// utils.go
+// ---------------------------------------------------------------------------------------------
+// TxReceiptFromEvent: (nil, nil) when the list has no tx_receipt event; otherwise the outcome of parsing the FIRST such
+// event. Trusted summary: the outcome is a function of the event list; the returned receipt and its logs are new objects.
+//@ func TxReceiptFromEvent(events []abci.Event) (ic *InCompletedEthReceipt, err error)
+//@   assumed
+//@   modifies nothing
+//@   ensures (err != nil) == evRcErr(base(events), off(events), len(events))
+//@   ensures (ic != nil) == evRcHas(base(events), off(events), len(events))
+//@   ensures err != nil ==> ic == nil
+//@   ensures ic != nil ==> (fresh(ic) && ic.Receipt != nil && fresh(ic.Receipt) && ic.EffectiveGasPrice != nil && ic.Receipt.BlockNumber != nil && bigval[ic.Receipt.BlockNumber] == evRcBlockNumber(base(events), off(events), len(events)))
+//@   ensures ic != nil ==> (ic.Receipt.GasUsed == evRcGasUsed(base(events), off(events), len(events)) && ic.Receipt.CumulativeGasUsed == evRcCumGas(base(events), off(events), len(events)) && ic.Receipt.Status == evRcStatus(base(events), off(events), len(events)) && ic.Receipt.Type == evRcType(base(events), off(events), len(events)) && ic.Receipt.TransactionIndex == evRcTxIndex(base(events), off(events), len(events)) && ic.Receipt.TxHash == evRcTxHash(base(events), off(events), len(events)) && ic.Receipt.ContractAddress == evRcContract(base(events), off(events), len(events)) && len(ic.Receipt.Logs) == evRcNLogs(base(events), off(events), len(events)))
+//@   ensures ic != nil ==> (len(ic.Receipt.Logs) == 0 || fresh(base(ic.Receipt.Logs)))
+//@   ensures ic != nil ==> (forall i int :: (0 <= i && i < len(ic.Receipt.Logs)) ==> (ic.Receipt.Logs[i] != nil && fresh(ic.Receipt.Logs[i])))
+//@   ensures ic != nil ==> (forall i int, j int :: (0 <= i && i < j && j < len(ic.Receipt.Logs)) ==> ic.Receipt.Logs[i] != ic.Receipt.Logs[j])
+//@   panics never
+
+// Fill: the block hash goes into the receipt and into every log; nothing else is written.
+//@ func (r *InCompletedEthReceipt) Fill(blockHash common.Hash)
+//@   requires r != nil && r.Receipt != nil
+//@   requires forall i int :: (0 <= i && i < len(r.Receipt.Logs)) ==> r.Receipt.Logs[i] != nil
+//@   modifies r.Receipt.BlockHash, fieldof(type(ethtypes.Log), BlockHash)
+//@   ensures[C14.fill_receipt_block_hash] r.Receipt.BlockHash == blockHash
+//@   ensures[C14.fill_logs_block_hash] forall i int :: (0 <= i && i < len(r.Receipt.Logs)) ==> r.Receipt.Logs[i].BlockHash == blockHash
+//@   ensures[C14.fill_other_logs_untouched] forall l *ethtypes.Log :: l.BlockHash == old(l.BlockHash) || (exists i int :: 0 <= i && i < len(r.Receipt.Logs) && r.Receipt.Logs[i] == l)
+//@   panics never
+//@ loop 1
+//@   invariant[C14.fill_loop_bounds] -1 <= rangeindex && rangeindex < len(r.Receipt.Logs)
+//@   invariant[C14.fill_loop_done] forall i int :: (0 <= i && i <= rangeindex) ==> r.Receipt.Logs[i].BlockHash == blockHash
+//@   invariant[C14.fill_loop_others] forall l *ethtypes.Log :: l.BlockHash == old(l.BlockHash) || (exists i int :: 0 <= i && i <= rangeindex && r.Receipt.Logs[i] == l)
+
+// ---------------------------------------------------------------------------------------------
+// tx_info.go — GetTransactionReceipt (C14): what is handed to the formatter rpctypes.NewRPCReceiptFromReceipt.
+//  * the message is the single Ethereum message of THIS transaction (block position res.TxIndex);
+//  * normal branch (the result of this transaction carries a receipt event): the receipt parsed from the events of
+//    TxsResults[res.TxIndex], filled with the hash of the block;
+//  * synthetic branch (no receipt event: failed after the ante handler / exceeded the block gas limit): status failed,
+//    gas used = the gas limit of the transaction, index = its eth tx index, hash = its hash, cumulative gas = own gas
+//    limit + the gas of the earlier transactions of the block by RAW position (prevGasTo) — only looked at when the eth
+//    tx index is positive, exactly as the code does.
+// ---------------------------------------------------------------------------------------------
+//@ func (b *Backend) GetTransactionReceipt(hash common.Hash) (rc *rpctypes.RPCReceipt, err error)
+//@   requires b != nil && b.logger != nil && b.clientCtx.TxConfig != nil
+//@   modifies txSrc
+//@   panics any
+//@   at call NewRPCReceiptFromReceipt@1 assert[C14.receipt_msg_is_this_tx] singleEthBytes(blkTxBytes(resBlock, res.TxIndex)) ==> bytes(ethMsg.MarshalledTx) == ethTxOfBytes(blkTxBytes(resBlock, res.TxIndex))
+//@   at call NewRPCReceiptFromReceipt@1 assert[C14.receipt_branch_by_own_result] (icReceipt != nil) == rsHas(blockRes, res.TxIndex) && !rsErr(blockRes, res.TxIndex)
+//@   at call NewRPCReceiptFromReceipt@1 assert[C14.receipt_from_own_result] icReceipt != nil ==> (receipt == icReceipt.Receipt && receipt != nil && receipt.GasUsed == rsGasUsed(blockRes, res.TxIndex) && receipt.CumulativeGasUsed == rsCumGas(blockRes, res.TxIndex) && receipt.Status == rsStatus(blockRes, res.TxIndex) && receipt.Type == rsType(blockRes, res.TxIndex) && receipt.TransactionIndex == rsTxIndex(blockRes, res.TxIndex) && receipt.TxHash == rsTxHash(blockRes, res.TxIndex) && receipt.ContractAddress == rsContract(blockRes, res.TxIndex) && len(receipt.Logs) == rsNLogs(blockRes, res.TxIndex))
+//@   at call NewRPCReceiptFromReceipt@1 assert[C14.receipt_filled_with_block_hash] icReceipt != nil ==> (receipt.BlockHash == hashOfBytes(bytes(resBlock.BlockID.Hash)) && (forall i int :: (0 <= i && i < len(receipt.Logs)) ==> receipt.Logs[i].BlockHash == hashOfBytes(bytes(resBlock.BlockID.Hash))))
+//@   at call NewRPCReceiptFromReceipt@1 assert[C14.receipt_old_logs_untouched] forall l *ethtypes.Log :: !fresh(l) ==> l.BlockHash == old(l.BlockHash)
+//@   at call NewRPCReceiptFromReceipt@1 assert[C14.synthetic_status_failed] icReceipt == nil ==> (receipt != nil && receipt.Status == 0 && len(receipt.Logs) == 0)
+//@   at call NewRPCReceiptFromReceipt@1 assert[C14.synthetic_gas_used_is_gas_limit] icReceipt == nil ==> receipt.GasUsed == decGas(bytes(ethMsg.MarshalledTx))
+//@   at call NewRPCReceiptFromReceipt@1 assert[C14.synthetic_tx_index] icReceipt == nil ==> receipt.TransactionIndex == asU64(res.EthTxIndex)
+//@   at call NewRPCReceiptFromReceipt@1 assert[C14.synthetic_tx_hash] icReceipt == nil ==> (receipt.TxHash == decHash(bytes(ethMsg.MarshalledTx)) && receipt.Type == decType(bytes(ethMsg.MarshalledTx)))
+//@   at call NewRPCReceiptFromReceipt@1 assert[C14.synthetic_cumulative_gas] icReceipt == nil ==> receipt.CumulativeGasUsed == (decGas(bytes(ethMsg.MarshalledTx)) + (res.EthTxIndex > 0 ? prevGasTo(b.clientCtx.TxConfig.TxDecoder(), resBlock, blockRes, res.TxIndex) : 0)) % pow2(64)
+//@   at call NewRPCReceiptFromReceipt@1 assert[C14.synthetic_block] icReceipt == nil ==> (receipt.BlockHash == hashOfBytes(bytes(resBlock.BlockID.Hash)) && receipt.BlockNumber != nil && bigval[receipt.BlockNumber] == blockRes.Height)
+//@ loop 1
+//@   modifies res.EthTxIndex
+//@ loop 2
+//@   modifies txSrc
+//@   invariant[C14.prev_loop_bounds] -1 <= rangeindex && rangeindex < res.TxIndex && res.TxIndex <= len(resBlock.Block.Data.Txs)
+//@   invariant[C14.prev_loop_cumulative] cumulativeGasUsed == (txGas(ethTx) + prevGasTo(b.clientCtx.TxConfig.TxDecoder(), resBlock, blockRes, rangeindex + 1)) % pow2(64)
